@@ -36,7 +36,7 @@ ASSUMPTIONS = [
     "deviation is attributed before it is reported (counterfactual run with "
     "only that draw rescaled harness-side)",
 ]
-MUST_REACH = ["replica_estimate", "z_test"]
+MUST_REACH = ["replica_estimate", "z_test", "ha_swap_threshold"]
 JOB_TIMEOUT = 3000
 
 
@@ -47,14 +47,20 @@ def _config(rng, kind):
     elif kind == "allwf":
         moves = ["sh"] + ["wf"] * (n - 1)
     elif kind == "wf0cap":
-        moves = ["sh", "wf"] + [rng.choice(["sh", "wf"]) for _ in range(n - 2)]
+        # wf in [0+] and a cap strictly below the last interface
+        n = max(n, 4)
+        moves = ["sh", "wf"] + [rng.choice(["sh", "wf"])
+                                for _ in range(n - 3)] + ["sh"]
     else:
         moves = ["sh"] + [rng.choice(["sh", "wf"]) for _ in range(n - 1)]
         if "wf" not in moves:
             moves[rng.randint(1, n - 1)] = "wf"
     cap = None
     wf_idx = [i for i, m in enumerate(moves) if m == "wf"]
-    if wf_idx and (kind == "wf0cap" or rng.random() < 0.4):
+    if wf_idx and kind == "wf0cap":
+        # the lowest cap the configuration admits: the most stringent use
+        cap = max(wf_idx) + 0.5
+    elif wf_idx and rng.random() < 0.4:
         lo = max(wf_idx)
         if lo <= n - 1:
             cap = rng.randint(lo, n - 1) + 0.5
@@ -90,6 +96,22 @@ def plan(tier, seed):
                                         {"steps": steps}]
             jobs.append({"kind": "replica", "config": ci, "spec": spec,
                          "hashseed": rng.randrange(1000)})
+    # component monitor: acceptance threshold of the high-acceptance zero
+    # swap (detailed balance of the swap needs w_new/w_old with the
+    # configured cap), probed inside real scheduler runs
+    for k in range(8 if tier == "quick" else 64):
+        n = rng.randint(3, 6)
+        moves = ["sh", "wf"] + [rng.choice(["sh", "wf"])
+                                for _ in range(n - 3)] + ["sh"]
+        wf_idx = [i for i, m in enumerate(moves) if m == "wf"]
+        cap = rng.choice([None] + [c + 0.5 for c in
+                                   range(max(wf_idx), n - 1)] * 2)
+        spec = {"n_intf": n, "moves": moves, "cap": cap, "workers": 1,
+                "policy": "fifo", "steps": 400, "seed": rng.randrange(2 ** 31),
+                "adv_seed": 0, "maxlength": 2000, "screen": 0,
+                "wall": rng.choice([-2, -3]), "n_jumps": 2}
+        jobs.append({"kind": "haswap", "spec": spec, "hashseed": 0,
+                     "seed": rng.randrange(2 ** 31)})
     return jobs
 
 
@@ -160,8 +182,76 @@ def _install_counterfactual(stats):
     itis.shoot = shoot
 
 
+class _FixedU:
+    def __init__(self, u):
+        self.u = u
+
+    def random(self, *a, **k):
+        return self.u
+
+
+def _haswap(job, scratch):
+    """Ride on a real run; every high-acceptance zero swap is decided with a
+    scripted draw next to the exact threshold w_new/w_old (capped weights
+    from the independent wire-fencing oracle)."""
+    import infretis.core.tis as itis
+    from vf.oracles import wfseg
+    from vf.sched_case import run_case
+    res = {"n": 0, "sigs": [], "events": {}, "violations": [], "samples": [],
+           "reached": {}, "notes": []}
+    spec = job["spec"]
+    rng = random.Random(job["seed"])
+    lam0 = 0.5
+    cap = spec["cap"] if spec["cap"] is not None else spec["n_intf"] - 0.5
+    orig = itis.high_acc_swap
+
+    def probe(paths, rgen, intf0, intf1, ens_moves):
+        new = [float(p.order[0]) for p in paths[0].phasepoints]
+        old = [float(p.order[0]) for p in paths[1].phasepoints]
+        w_new = wfseg.weight(new, lam0, lam0, cap)
+        w_old = wfseg.weight(old, lam0, lam0, cap)
+        if not w_old or list(ens_moves) != ["sh", "wf"]:
+            return orig(paths, rgen, intf0, intf1, ens_moves)
+        p = float(w_new) / float(w_old)
+        u = rng.choice([p * (1 - 1e-9), p * (1 + 1e-9), rng.random()])
+        u = min(max(u, 0.0), 0.999999999)
+        acc, status = orig(paths, _FixedU(u), intf0, intf1, ens_moves)
+        res["n"] += 1
+        res["reached"]["ha_swap_threshold"] = \
+            res["reached"].get("ha_swap_threshold", 0) + 1
+        key = "ha_swap_" + status
+        res["events"][key] = res["events"].get(key, 0) + 1
+        if bool(acc) != (u < p):
+            if len(res["violations"]) < 10:
+                res["violations"].append({
+                    "mech": "ha-swap-acceptance-threshold",
+                    "what": f"high-acceptance [0-]<->[0+] swap with draw "
+                            f"u={u!r}: exact threshold w_new/w_old = "
+                            f"{w_new}/{w_old} = {p!r} (cap {cap}) but the "
+                            f"move returned {status}",
+                    "new_0plus": new[:50], "old_0plus": old[:50],
+                    "config": {k: spec[k] for k in ("n_intf", "moves",
+                                                    "cap")}})
+        if abs(u - p) < 1e-6:
+            res["sigs"].append(f"ha-{spec['seed']}-{res['n']}")
+        return acc, status
+    itis.high_acc_swap = probe
+    try:
+        rig, info = run_case(spec, os.path.join(scratch, "ha"), [])
+    finally:
+        itis.high_acc_swap = orig
+    for v in rig.violations:
+        res["violations"].append(dict(v, spec=F.brief(spec)))
+    if len(res["samples"]) < 1:
+        res["samples"].append({"ha_swap_probe": F.brief(spec),
+                               "probes": res["n"]})
+    return res
+
+
 def work(job, scratch):
     from vf.sched_case import run_case
+    if job["kind"] == "haswap":
+        return _haswap(job, scratch)
     res = {"n": 0, "sigs": [], "events": {}, "violations": [], "samples": [],
            "reached": {}, "notes": []}
     spec = job["spec"]
@@ -226,7 +316,7 @@ def aggregate(jobs, results, ctx):
            "reached": {}, "notes": [], "inconclusive": []}
     by_cfg = {}
     for job, r in zip(jobs, results):
-        if r is None or not r.get("x_est"):
+        if r is None or not r.get("x_est") or job["kind"] != "replica":
             continue
         by_cfg.setdefault(job["config"], []).append((job, r["x_est"]))
     report = []
